@@ -16,7 +16,8 @@ pub open spec fn max_u8(a: u8, b: u8) -> u8 { if a >= b { a } else { b } }
 pub open spec fn at_scale(d: Decimal, s: u8) -> int
     recommends s >= d.n_frac_digits
 {
-    d.coeff * pow10((s - d.n_frac_digits) as nat)
+    // (the s == scale case is written out so that no proof depends on c * 10^0 == c)
+    if s == d.n_frac_digits { d.coeff as int } else { d.coeff * pow10((s - d.n_frac_digits) as nat) }
 }
 
 /// sign of (value of x) - (value of y)
